@@ -194,8 +194,8 @@ def block_verdict(b):
     if not m or b[-1] != "======":
         return False, None
     name = m.group(1)
-    # PCTextDriver writes the colour sequences with their terminating NUL
-    end = ANSI.sub("", b[-2]).replace("\x00", "")
+    # colour sequences of PCTextDriver (the reset sequence ends with SI, 0x0f)
+    end = "".join(c for c in ANSI.sub("", b[-2]) if ord(c) >= 32)
     if not end.startswith("* end of test '%s" % name[:40]):
         return False, None
     if end.rstrip().endswith("[SUCCESS]"):
